@@ -1,25 +1,28 @@
 /-
   Helper lemmas for C10 (string form recompiles to an equivalent query). Statements used by JP/Props/C10.lean.
+  Proofs: JP/Lemmas/SurfaceAux1-6.lean.
 -/
 import JP.Surface
+import JP.Lemmas.SurfaceAux5
+import JP.Lemmas.SurfaceAux6
 namespace JP.Lemmas
 open JP JP.Query JP.Surface
 
 theorem parse_ptoks (pr : Prec) (hpr : precOK pr = true) (p : Path) (hp : parsedSegs p.segs = true) :
-    parseQuery pr (ptoksPath p) = .ok ⟨normSegs p.segs, p.fake⟩ := by
-  sorry
+    parseQuery pr (ptoksPath p) = .ok ⟨normSegs p.segs, p.fake⟩ :=
+  parse_ptoks_aux pr hpr p hp
 
-theorem normSegs_idem (segs : List Seg) : normSegs (normSegs segs) = normSegs segs := by
-  sorry
+theorem normSegs_idem (segs : List Seg) : normSegs (normSegs segs) = normSegs segs :=
+  normSegs_idem' segs
 
-theorem ptoks_normSegs (segs : List Seg) : ptoksSegs (normSegs segs) = ptoksSegs segs := by
-  sorry
+theorem ptoks_normSegs (segs : List Seg) : ptoksSegs (normSegs segs) = ptoksSegs segs :=
+  ptoksSegs_norm segs
 
 theorem parsed_normSegs (segs : List Seg) (h : parsedSegs segs = true) : parsedSegs (normSegs segs) = true := by
-  sorry
+  rw [parsedSegs_norm]; exact h
 
 theorem eval_normSegs (env : Env) (segs : List Seg) (ns : List Node) :
-    evalSegs env (normSegs segs) ns = evalSegs env segs ns := by
-  sorry
+    evalSegs env (normSegs segs) ns = evalSegs env segs ns :=
+  evalSegs_norm env segs ns
 
 end JP.Lemmas
